@@ -207,7 +207,9 @@ func gen(c *trlib.Ctx) error {
 	if sc != nil {
 		ast.Inspect(sc.Body, func(n ast.Node) bool {
 			if as, isA := n.(*ast.AssignStmt); isA && len(as.Lhs) == 1 && len(as.Rhs) == 1 {
-				if strings.HasSuffix(trlib.ExprString(as.Lhs[0]), "confirmQueue") && strings.HasPrefix(trlib.ExprString(as.Rhs[0]), "make(") {
+				// any right-hand side that does not alias the old backing array (make, nil, a literal) is a fresh slice
+				if strings.HasSuffix(trlib.ExprString(as.Lhs[0]), "confirmQueue") && !strings.Contains(trlib.ExprString(as.Rhs[0]), "confirmQueue") &&
+					!strings.Contains(trlib.ExprString(as.Rhs[0]), "currentConfirms") {
 					fresh = true
 				}
 			}
